@@ -380,7 +380,7 @@ func c07Check(r *rig) (string, string, string) {
 		return "C07 (the ordering chain continues across the restart): " + v + "\n" + tr(), "", ""
 	}
 	if v := r.c07Chain(); v != "" {
-		return "C07 (the ordering chain continues across the restart): " + v + "\n" + tr(), "", ""
+		return "C07 (the ordering chain continues across the restart): " + v + "\n" + tr(), r.chainClass, ""
 	}
 	// per incarnation: nothing the receiver listed as held, and nothing already delivered, is transmitted
 	for g := 1; g <= r.gen; g++ {
@@ -411,7 +411,10 @@ func c07Check(r *rig) (string, string, string) {
 						return fmt.Sprintf("C07: after the restart the receiver listed [%d,%d) of %s as held, yet the sender transmitted %s\n%s", rg[0], rg[1], p.Name, p, tr()), "", ""
 					}
 				}
-				if g-1 < len(r.finalAtCrash) && r.finalAtCrash[g-1][p.Name] == p.Hash {
+				// (unless the receiver itself lists a partial of it: a part of the dead incarnation's
+				// last request may have landed after the file was delivered, and the sender is
+				// entitled to believe the listing)
+				if _, isListed := listed[p.Name+" "+p.Hash]; !isListed && g-1 < len(r.finalAtCrash) && r.finalAtCrash[g-1][p.Name] == p.Hash {
 					return fmt.Sprintf("C07: %s was already delivered when the sender crashed, yet the restarted sender transmitted %s\n%s", p.Name, p, tr()), "", ""
 				}
 			}
@@ -789,4 +792,142 @@ func TestC17Elig(t *testing.T) {
 		}
 	}
 	rep.Bound = "all 64 combinations of {include-hidden, include patterns, an ignore pattern, a tag with a method other than http, min-age on either side of a file's age, disable marker at the root} on a tree with a plain file, files in (nested) directories, a hidden file, a file in a hidden directory, a lock file, a disable marker below the root, an empty file and a young file; each combination is one real one-shot run; reference = the predicate of the statement"
+}
+
+// ---------------------------------------------------------------- C13 over real HTTP
+
+// TestC13HTTP: the wire format over a real HTTP request (http.Client.Transmit -> net/http ->
+// Server.routeData -> payload decoder -> gate keeper), for every compression level, names
+// with unicode and spaces, part lengths around the block and copy-buffer sizes, payloads
+// that hold several files and files that span several payloads.
+func TestC13HTTP(t *testing.T) {
+	envT = t
+	rep := vh.NewReport("C13", "round trip over a real HTTP request (exhaustive enumeration: compression level x payload size)")
+	defer rep.Write()
+	levels := []int{0, 1, 6, 9}
+	if vh.Thorough() {
+		levels = []int{0, 1, 2, 3, 4, 5, 6, 7, 8, 9}
+	}
+	gen := func(n int, seed byte) string {
+		b := make([]byte, n)
+		for i := range b {
+			b[i] = byte('!' + (int(seed)+i*7+i/97)%90)
+		}
+		return string(b)
+	}
+	n := 0
+	for _, level := range levels {
+		for _, bin := range []int{64, 4096, 20000} {
+			n++
+			if !vh.Mine(n) {
+				continue
+			}
+			conf := confTwoThreads()
+			conf.Compression = level
+			conf.BinSize = bin
+			conf.Horizon = 30 * time.Minute
+			conf.Files = []rigFile{
+				{Name: "g/ü ñ.dat", Data: gen(1, 1), Age: 900},
+				{Name: "g/a b", Data: gen(2, 2), Age: 800},
+				{Name: "g/seven", Data: gen(7, 3), Age: 700},
+				{Name: "h/日本.bin", Data: gen(8192, 4), Age: 600},
+				{Name: "h/block+1", Data: gen(8193, 5), Age: 500},
+				{Name: "k/d/e/nested name", Data: gen(300, 6), Age: 400},
+			}
+			res := envRun(conf, nil, nil, nil, func(r *rig) (string, string, string) {
+				if v := r.c01Final(); v != "" {
+					return v, "", ""
+				}
+				if g := r.c03Goal(); g != "" {
+					return fmt.Sprintf("compression %d, payload size %d: %s\n%s", level, bin, g, r.traceString()), "", ""
+				}
+				// every part the sender put into a data request was handed to the gate keeper with the same name and range
+				nparts := 0
+				for _, w := range r.wire {
+					if w.Kind == "data" && w.Err == "" {
+						if sig(w.Parts) != sig(w.Received) {
+							return fmt.Sprintf("compression %d, payload size %d: the request carried %s, the gate keeper received %s", level, bin, sig(w.Parts), sig(w.Received)), "", ""
+						}
+						nparts += len(w.Parts)
+					}
+				}
+				return "", "", fmt.Sprintf("parts=%d", nparts)
+			})
+			rep.Executions++
+			rep.States++
+			rep.Transitions += int64(len(res.Events))
+			rep.Nontrivial++
+			rep.Outcome(res.Outcome)
+			rep.Sample(map[string]int{"compression": level, "payload_size": bin}, 4)
+			if res.Viol != "" {
+				rep.Violate(res.Class, res.Viol, map[string]int{"compression": level, "payload_size": bin})
+			}
+		}
+	}
+	rep.Bound = fmt.Sprintf("compression levels %v x payload sizes {64, 4096, 20000} bytes; six files (1, 2, 7, 300, 8192, 8193 bytes; names with unicode, spaces and nested directories) sent by the real sender through real HTTP requests to the real receiver; every part of every request must reach the gate keeper under its name and range, and every file must arrive byte-identical", levels)
+}
+
+// ---------------------------------------------------------------- C04 / C01 end to end
+
+func TestC04Env(t *testing.T) {
+	d := 2
+	cron := confOneGroup()
+	cron.Rerun = true
+	dm := asDaemon(confOneGroup())
+	scs := []envScenario{esc("4 files of one group, 2 threads, one-shot invoked every minute", cron, nil), esc("4 files of one group, 2 threads, daemon", dm, nil)}
+	runEnvProperty(t, "C04", "order of delivery end to end under faults and restarts (E-ENV)", scs, d,
+		func(ev vh.EnvEvent, plan []vh.Deviation) []string { return faultAlts(ev, true) },
+		func(r *rig) (string, string, string) {
+			if v := r.c04Order(); v != "" {
+				return v + "\n" + r.traceString(), "", ""
+			}
+			if v := r.c07Chain(); v != "" {
+				return "C04 (announced predecessors): " + v + "\n" + r.traceString(), "", ""
+			}
+			if g := r.c03Goal(); g != "" {
+				return "C04/C03: " + g + "\n" + r.traceString(), "", ""
+			}
+			return "", "", fmt.Sprintf("log=%d", len(r.recvLogRecords()))
+		},
+		"four files of one ordered (fifo) group sent on two threads; all plans with <= 2 deviations over request failures (refused, answer lost, receiver error / cut at part k, corrupted part), receiver restart and sender crash at data and poll requests; oracle: receive-log order = age order, every announced predecessor is the immediately preceding file unless that one is known to be delivered, everything delivered in the end")
+}
+
+func TestC01Env(t *testing.T) {
+	d := 2
+	conf := asDaemon(confTwoThreads())
+	conf.Horizon = 30 * time.Minute
+	setup := func(r *rig) { r.fileOps = []string{"rewrite", "append"} }
+	scs := []envScenario{esc("3 files, 2 threads, daemon, files changing", conf, setup)}
+	runEnvProperty(t, "C01", "integrity end to end: corruption in transit, files changing while queued or streamed, restarts (E-ENV)", scs, d,
+		func(ev vh.EnvEvent, plan []vh.Deviation) []string {
+			var out []string
+			switch kindOf(ev.Key) {
+			case "data":
+				out = append(pick(ev.Menu, "corrupt:", "cut:", "crash", "recv-restart"), pick(ev.Menu, "file:")...)
+			case "sent", "persist":
+				out = pick(ev.Menu, "file:")
+			case "validate":
+				out = pick(ev.Menu, "crash", "recv-restart")
+			}
+			return out
+		},
+		func(r *rig) (string, string, string) {
+			if v := r.c01Final(); v != "" {
+				return v + "\n" + r.traceString(), "", ""
+			}
+			// the hash in the receive log is the hash of what was delivered
+			final := r.finalFiles()
+			last := map[string]string{}
+			for _, rec := range r.recvLogRecords() {
+				kv := strings.SplitN(rec, "|", 2)
+				last[kv[0]] = kv[1]
+			}
+			for name, h := range final {
+				if last[name] != h {
+					return fmt.Sprintf("C01: %s was delivered with md5 %s, the latest receive-log record for it says %q\n%s", name, h, last[name], r.traceString()), "", ""
+				}
+			}
+			return "", "", fmt.Sprintf("delivered=%d", len(final))
+		},
+		"three files on two threads, daemon; all plans with <= 2 deviations over: a byte of part k flipped in transit, connection cut at part k, a source file rewritten (same size) or appended to at a data request / sent-log write / cache write (i.e. while queued or being streamed), sender crash, receiver restart; oracle: every file in the final directory is a version its source file had, with the hash of its latest receive-log record")
 }
